@@ -55,7 +55,16 @@ override_entrypoint_args) is a fourth entry point (mode ('lw',)): on the corpus,
 and of the mutants of every class and on the malformed documents it must answer with nothing or with a
 DSLInvalidError that names locations, must not reject a valid namespace, must not accept a STRUCTURALLY invalid one
 (Invalid.deep False: decided without evaluating values), and is compared with coq/Dsl/Load.v [lightweight] (the
-traversal alone) by check_lw."""
+traversal alone) by check_lw.
+
+KEY OUTPUTS (entrypoint.output[].data-in) and ENVIRONMENT families: ~35% of the generated namespaces declare 1-3 key outputs
+whose data-in is an absolute complete reference to a file of a component instance at any depth; the flattener resolves it
+like any reference (producer = longest component location prefixing the path) and the predicate demands the compiled
+data-in under the same naming bijection; a data-in that leads to no component instance (misspelt step, a workflow
+instance, not absolute) or a second output with one name makes the namespace invalid (mutant classes output_*);
+coq/Dsl/Outputs.v (compile_out / lightweight_out) models the block and is tied by check_out / check_lw_out.  The
+dictionaries of one namespace come mostly from ONE family (base + variables whose value is empty / 0 / False ...), so that
+sibling and nested instances run in environments that differ only in such variables."""
 import json
 import os
 import re
@@ -78,7 +87,7 @@ ASSUMPTIONS = [
     'generated); booleans and lists are not '
     'legal ParameterValueType (a list is a schema fault, checked through the configuration loader only); '
     'a partial reference (<a/b> without :method) is the sole content of a value; '
-    'literal text avoids < > % " / : ; no "replica", no workflowAttributes/replicate, no environments, no key outputs, '
+    'literal text avoids < > % " / : ; no "replica", no workflowAttributes/replicate, no environments section, key outputs hold name and data-in only, '
     'no legacy "input/file":ref references, parameter defaults are literal text or typed values, no step is called '
     'entry-instance; user variable files hold a global section of scalars only',
     'the worklist of discover_all_instances_of_templates is modelled as the equivalent depth-first recursion '
@@ -1805,7 +1814,7 @@ def run(ctx):
     ctx.rule = ('valid namespace with >= 2 component instances and >= 1 producer->consumer edge, or an invalid '
                 '(single-fault) namespace or malformed document; distinct by rendered document, override and entry point')
     rng = ctx.rng
-    n_valid, n_mut, n_conf = (700, 520, 90) if ctx.tier == 'quick' else (5000, 3900, 1000)
+    n_valid, n_mut, n_conf = (700, 610, 90) if ctx.tier == 'quick' else (5000, 4550, 1000)
     n_lw = 120 if ctx.tier == 'quick' else 900
     try:
         cases = []
